@@ -1696,8 +1696,11 @@ main(int argc, char **argv) {
   if (thorough)
     run_space(&full, 0);
 #else
-  run_space(&msg_major, 0);
-  run_space(&ctx_major, 0);
+  /* each space gets its share of the wall budget, so that a loaded machine shortens all of them instead of
+   * starving the last one */
+  double B = vx_time_left();
+  run_space(&msg_major, 0.45 * B);
+  run_space(&ctx_major, 0.10 * B);
   run_space(tamper, 0);
 #endif
 
